@@ -218,7 +218,7 @@ fn map_hook(name: &'static str) {
 struct ConcHooks {
     ctl: Arc<Ctl>,
     /// also yield at the `y:` points (every engine access of the index layer, every read of the
-    /// event map): a third of the runs (cfg obs_level 1 of a concurrent trace)
+    /// event map): half of the runs (cfg obs_level 1 of a concurrent trace)
     fine: bool,
 }
 
@@ -687,11 +687,11 @@ pub fn generate(rs: u64, focus: &str) -> Trace {
                 };
                 threads[t].push(Op::Query(q));
             }
-            if g.rng.chance(1, 2) {
+            if g.rng.chance(2, 3) {
                 // the address looked up directly, once or twice, while the versions compete
                 let t = g.rng.usize(nthreads);
                 for _ in 0..(1 + g.rng.usize(2)) {
-                    let pos = g.rng.usize(threads[t].len() + 1);
+                    let pos = if g.rng.chance(1, 2) { 0 } else { g.rng.usize(threads[t].len() + 1) };
                     threads[t].insert(pos, Op::Holder(a.clone()));
                 }
             }
@@ -1183,7 +1183,7 @@ pub fn generate(rs: u64, focus: &str) -> Trace {
     // the generator fixes the policy and its PRNG stream
     let sched_seed = g.rng.next();
     // (in a concurrent trace obs_level 1 means: the `y:` points are yield points too)
-    let fine = (sched_seed >> 17) % 3 == 0;
+    let fine = (sched_seed >> 17) % 2 == 0;
     Trace {
         cfg: Cfg { prop: "C14".into(), mode: Mode::Conc, seed: sched_seed, blocker: false, extra_tables: 0, obs_level: fine as u8, drain: false },
         ops,
@@ -1214,8 +1214,9 @@ enum Policy {
     Pct(Rng, Vec<u32>, Vec<u64>),
     /// one thread (the victim) runs up to its k-th yield point and is then left parked there
     /// until some other thread has completed a whole operation (or nobody else can run); random
-    /// afterwards. (rng, victim, k, yields of the victim so far, phase, records when parked)
-    ParkAcross(Rng, usize, u64, u64, u8, usize),
+    /// afterwards. (rng, victim, k, yields of the victim so far, phase, records when parked,
+    /// count only the yields inside helpers - the `y:` points - towards k)
+    ParkAcross(Rng, usize, u64, u64, u8, usize, bool),
 }
 
 pub struct ConcResult {
@@ -1358,11 +1359,15 @@ pub fn run_conc_full(trace: &Trace, scratch: PathBuf, verbose: bool, known_open:
         if which == 0 {
             Policy::Uniform(r)
         } else if which == 2 {
-            let victim = r.usize(n);
+            // the victim: preferably a thread that starts with a reader operation
+            let readers_first: Vec<usize> = (0..n).filter(|t| matches!(trace.threads[*t].first(), Some(Op::Query(_) | Op::Get(_) | Op::Has(_) | Op::Holder(_) | Op::AddrDeleted(_) | Op::IsDeleted(_) | Op::GetOff(_) | Op::Stats))).collect();
+            let victim = if !readers_first.is_empty() && r.chance(2, 3) { *r.pick(&readers_first) } else { r.usize(n) };
             // (the first yield is `op_start`; in fine-grained runs the interesting points of a
             // reader lie within its first dozen yields, those of a writer within its first thirty)
-            let k = 1 + if trace.cfg.obs_level == 1 { r.below(24) } else { r.below(10) };
-            Policy::ParkAcross(r, victim, k, 0, 0, 0)
+            let fine_run = trace.cfg.obs_level == 1;
+            let inside = fine_run && r.chance(1, 2);
+            let k = 1 + if inside { r.below(6) } else if fine_run { r.below(24) } else { r.below(10) };
+            Policy::ParkAcross(r, victim, k, 0, 0, 0, inside)
         } else {
             let mut prio: Vec<u32> = (0..n as u32).map(|i| 100 + i).collect();
             r.shuffle(&mut prio);
@@ -1560,11 +1565,17 @@ pub fn run_conc_full(trace: &Trace, scratch: PathBuf, verbose: bool, known_open:
                     }
                     *runnable.iter().max_by_key(|t| prio[**t]).unwrap()
                 }
-                Policy::ParkAcross(r, victim, k, yields, phase, recs_at_park) => {
+                Policy::ParkAcross(r, victim, k, yields, phase, recs_at_park, inside) => {
                     let done_now = records.lock().unwrap().iter().filter(|x| x.thread != *victim).count();
                     if *phase == 0 {
-                        if runnable.contains(victim) && *yields < *k {
+                        // (with `inside`, the victim is parked at its k-th point inside a helper)
+                        if *inside && *yields < *k && matches!(g.status[*victim], St::Parked(p) if p.starts_with("y:")) {
                             *yields += 1;
+                        }
+                        if runnable.contains(victim) && *yields < *k {
+                            if !*inside {
+                                *yields += 1;
+                            }
                             *victim
                         } else if *yields >= *k {
                             *phase = 1;
